@@ -2,8 +2,9 @@ package p_isaaca
 
 import (
 	"fmt"
+	"os"
 	"runtime"
-	"runtime/debug"
+	"strconv"
 	"strings"
 	"sync"
 	"sync/atomic"
@@ -1224,15 +1225,16 @@ func (w *c06World) apply(o c06Op) {
 func (w *c06World) done() { c06WVotes.Add(int64(w.votes)) }
 
 // c06WorldOps: the alphabet of the exhaustive part at one height. full: single ballots of every kind (two fact variants
-// of init / accept) by node 0 and node 1, quorums of every kind, splits, Count. Not full: single ballots by node 0 of
-// the canonical facts, quorums of init / sc / accept, splits, Count.
+// of init / accept) by node 0 and node 1, quorums of every kind, splits, Count. Not full: single init / sc / accept
+// ballots by node 0, quorums of init / sc / accept, splits, Count. (Every Ballotbox allocates a 1 MiB voteproof channel,
+// which bounds the number of histories the quick tier can afford.)
 func c06WorldOps(h int64, rounds []uint64, full bool) []c06Op {
 	type kv struct {
 		kind string
 		v    int
 	}
 
-	singles := []kv{{"init", 0}, {"initExpel", 0}, {"sc", 0}, {"accept", 0}, {"acceptExpel", 0}}
+	singles := []kv{{"init", 0}, {"sc", 0}, {"accept", 0}}
 	quorums := []string{"init", "sc", "accept"}
 	nodes := 1
 
@@ -1471,9 +1473,12 @@ func TestC06(t *testing.T) {
 		"ForceSetLast (sync/handover reset) is outside the statement",
 	)
 
-	// every Ballotbox allocates a 1 MiB voteproof channel; with the small live heap of this test the collector would run
-	// every few boxes. Speed only.
-	defer debug.SetGCPercent(debug.SetGCPercent(1600))
+
+	if os.Getenv("C06BALLAST") != "" {
+		n, _ := strconv.Atoi(os.Getenv("C06BALLAST"))
+		ballast := make([]byte, n<<20)
+		defer runtime.KeepAlive(ballast)
+	}
 
 	heights := []int64{1, 2, 3}
 	rounds := []uint64{0, 1, 2}
